@@ -10,6 +10,7 @@ import (
 	"path/filepath"
 	"sort"
 	"strings"
+	"sync"
 
 	"golang.org/x/tools/go/packages"
 	"golang.org/x/tools/go/ssa"
@@ -32,6 +33,8 @@ type Prog struct {
 	usedRec   map[string]bool
 	recCache  map[string]string
 	gconst    map[*ssa.Global]bool
+	recTemplates map[string]*recTemplate
+	mu        sync.Mutex
 }
 
 func pkgKeyOf(path string) (string, bool) {
